@@ -137,6 +137,22 @@ def unit_l0contract(tier, seed):
 
 
 UNITS['l0contract'] = unit_l0contract
+
+
+def unit_crcstep(tier, seed):
+    import unit_crcstep
+    return unit_crcstep.run(tier, seed)
+
+
+UNITS['crcstep'] = unit_crcstep
+
+
+def unit_tinyvec(tier, seed):
+    import unit_tinyvec
+    return unit_tinyvec.run(tier, seed)
+
+
+UNITS['tinyvec'] = unit_tinyvec
 UNITS['l1float'] = unit_l1float
 UNITS['l1int'] = unit_l1int
 UNITS['l1enc'] = unit_l1enc
@@ -220,8 +236,8 @@ UNITS['bs_msgs'] = unit_bs_msgs
 
 # property -> units that carry obligations tagged with it
 PROPERTY_UNITS = {}
-PROPERTY_UNITS['C03'] = ['frame']
-PROPERTY_UNITS['C04'] = ['crc', 'frame']
+PROPERTY_UNITS['C03'] = ['frame', 'crcstep']
+PROPERTY_UNITS['C04'] = ['crc', 'frame', 'crcstep']
 PROPERTY_UNITS['C05'] = ['frame']
 PROPERTY_UNITS['C06'] = ['frame']
 PROPERTY_UNITS['C13'] = ['frame']
@@ -229,7 +245,7 @@ PROPERTY_UNITS['C18'] = ['sigtab']
 PROPERTY_UNITS['C07'] = ['l0bits']
 PROPERTY_UNITS['C08'] = ['dfvc', 'l1int', 'l0bits']
 PROPERTY_UNITS['C11'] = ['dfvc']
-PROPERTY_UNITS['C15'] = ['l2', 'l1int', 'l0bits']
+PROPERTY_UNITS['C15'] = ['l2', 'l1int', 'l0bits', 'tinyvec']
 PROPERTY_UNITS['C14'] = ['msgl3', 'frame']
 PROPERTY_UNITS['C12'] = ['msgl3', 'l0bits']
 PROPERTY_UNITS['C09'] = ['msgl3', 'l2', 'l1int', 'l1enc', 'bs_msgs', 'l0bits']
@@ -237,8 +253,8 @@ PROPERTY_UNITS['C16'] = ['l2', 'dfvc', 'bs_bias', 'bs_msgs', 'l0bits']
 PROPERTY_UNITS['C01'] = ['msgl3', 'frame', 'l2', 'dfvc', 'l1int', 'text', 'bs_msgs', 'bs_msmrows', 'bs_bias', 'l0bits']
 PROPERTY_UNITS['C19'] = ['features', 'msgl3']
 PROPERTY_UNITS['C17'] = ['text', 'bs_text', 'l2', 'l0bits']
-PROPERTY_UNITS['C10'] = ['l2', 'sigtab', 'bs_msmrows', 'bs_msgs', 'l0bits']
-PROPERTY_UNITS['C02'] = ['frame', 'msgl3', 'l2', 'l1int', 'l1enc', 'bs_msgs', 'l0bits']
+PROPERTY_UNITS['C10'] = ['l2', 'sigtab', 'bs_msmrows', 'bs_msgs', 'l0bits', 'tinyvec']
+PROPERTY_UNITS['C02'] = ['frame', 'msgl3', 'l2', 'l1int', 'l1enc', 'bs_msgs', 'l0bits', 'tinyvec']
 
 # units that run only in the thorough tier
 THOROUGH_EXTRA = {'C08': ['l1float'], 'C01': ['l1float'], 'C07': ['l0contract']}
